@@ -21,6 +21,7 @@
                                               from the `AppSession`)
                      `newLoop` / `closeLoop` = a fresh event loop is created / the loop is closed
                                               (callbacks that were accepted but did not run are dropped)
+                     `inval`      = `Application.invalidate()` + the redraw it schedules
 
   The chain of `in_terminal` sections (`Application._running_in_terminal_f`) for sections that
   stay open across `await`s is modelled separately in `Ptk.Model.C20Chain`.
@@ -96,6 +97,9 @@ inductive Op where
   | stop
   | newLoop
   | closeLoop
+  /-- `Application.invalidate()` followed by the scheduled `_redraw()`: the running application
+      repaints its prompt (key press, resize, refresh ...) -/
+  | inval
 deriving Repr, DecidableEq
 
 /-- `"".join(parts)` -/
@@ -191,6 +195,10 @@ def step (s : St) : Op → St
     if s.loopOpen ∧ ¬ s.appOn then
       { s with loopOpen := false, lost := s.lost ++ s.pending, pending := [] }
     else s
+  | .inval =>
+    -- `_redraw` renders `if self._is_running and not self._running_in_terminal`; the sections of the
+    -- proxy are atomic, so `_running_in_terminal` is False whenever this step runs
+    if s.appOn then { s with log := s.log ++ [.draw] } else s
 
 def runOps (s : St) : List Op → St
   | [] => s
